@@ -26,7 +26,7 @@ HARNESS = {
     "C15": ["harness.e2_C15"],
     "C16": ["harness.e2_C16"],
     "C17": ["harness.ch_C17", "harness.e2_C17"],
-    "C19": ["harness.e2_C19"],
+    "C19": ["harness.e2_C19", "harness.ch_C19"],
     "C20": ["harness.ch_C20"],
 }
 
